@@ -1,6 +1,7 @@
 package props
 
 import (
+	"strings"
 	"time"
 
 	"github.com/formancehq/numscript/internal/verifmc/env"
@@ -49,7 +50,19 @@ func runC08(w *mc.Worker) {
 		}
 		return false
 	}
-	body := func(c *seqCase, bal env.Bal) { judgeSeqCase(w, c, nil, bal, owns, nontriv, true) }
+	body := func(c *seqCase, bal env.Bal) {
+		judgeSeqCase(w, c, nil, bal, owns, nontriv, true)
+		// the same case against a store that omits absent / zero entries (no cache entry is
+		// created for them): the visible balances, hence the expected result, are the same
+		if strings.Contains(c.Text, "save") {
+			judgeSeqCaseMode(w, c, nil, bal, owns, nontriv, false, env.Sparse)
+		}
+	}
+	runVarSeqSpace(w, "vars-L2", 2, 2, func(c *seqCase, vars map[string]string, bal env.Bal) {
+		if strings.Contains(c.Text, "save") {
+			judgeSeqCase(w, c, vars, bal, owns, nontriv, true)
+		}
+	})
 	sheetsQ := &sheetDom{A: bigs(0, 1, 3, 6, -2), B: bigs(0, 2, -2), X: bigs(0, 2)}
 	sheetsT := &sheetDom{A: append(bigs(0, 1, 3, 6, -2), H), B: bigs(0, 2, -2), X: bigs(0, 2), AEur: bigs(0, 3)}
 	seq := func(name, bounds string, minLen, maxLen, budget int, sh *sheetDom) {
